@@ -94,6 +94,45 @@ fn workloads() -> Vec<Workload> {
             description: format!("{} threads evaluate the same Arc<Node> `{}` against the same Arc<HashMapContext>", n, src),
         });
     }
+    // W1b: deep trees (each thread holds many evaluation frames at its yield points) and many threads
+    {
+        let depth = 100;
+        let src = format!("{}y(1){}", "-(".repeat(depth), ")".repeat(depth));
+        let tree = mk(&src);
+        let c = ctx.clone();
+        out.push(Workload {
+            name: "deep-nesting-2",
+            threads: 2,
+            body: Arc::new(move |_tid| {
+                let r = tree.eval_with_context(&*c);
+                (res_key(&r), take_calls())
+            }),
+            description: format!("2 threads evaluate the same tree of nesting depth {} (`-(` x {} around y(1)) against the same context", depth, depth),
+        });
+        let src3 = format!("{}y(1) + y(2){}", "(0+".repeat(50), ")".repeat(50));
+        let tree3 = mk(&src3);
+        let c = ctx.clone();
+        out.push(Workload {
+            name: "deep-nesting-3",
+            threads: 3,
+            body: Arc::new(move |_tid| {
+                let r = tree3.eval_with_context(&*c);
+                (res_key(&r), take_calls())
+            }),
+            description: "3 threads evaluate the same tree of nesting depth 50 with two calls at the bottom".into(),
+        });
+        let tree8 = mk("(y(1), (y(a), y(b)))");
+        let c = ctx.clone();
+        out.push(Workload {
+            name: "many-threads-5",
+            threads: 5,
+            body: Arc::new(move |_tid| {
+                let r = tree8.eval_with_context(&*c);
+                (res_key(&r), take_calls())
+            }),
+            description: "5 threads evaluate the same nested-tuple tree against the same context (explored with preemption bound <= 1)".into(),
+        });
+    }
     // W2: different trees, same context
     {
         let trees = [mk("y(1) + y(2)"), mk("y(a) * z(3)"), mk("(y(b), y(true))")];
@@ -284,7 +323,9 @@ pub fn run(cfg: &Cfg) -> Report {
     let mut per = Vec::new();
     for w in &ws {
         // iterate the bound: 0, 1, 2, ... so that the first counterexample has the fewest preemptions
-        let bounds: Vec<Option<usize>> = match cfg.tier {
+        let bounds: Vec<Option<usize>> = if w.threads > 3 {
+            vec![Some(0), Some(1)]
+        } else { match cfg.tier {
             Tier::Quick => vec![Some(0), Some(1), Some(2)],
             Tier::Thorough => {
                 if w.threads == 2 {
@@ -293,7 +334,7 @@ pub fn run(cfg: &Cfg) -> Report {
                     vec![Some(0), Some(1), Some(2), Some(3)]
                 }
             },
-        };
+        } };
         let mut last = json!(null);
         for b in bounds {
             let had = stats.violations_total;
